@@ -403,6 +403,9 @@ def run_search(case: dict, trace: bool = False) -> dict:
                              'm': by_token[tok]['m'], 'token': tok})
         view.sort(key=lambda v: v['seq'])
         hidden_uids = set()
+        readings = [(True, False)] \
+            if case['config'].get('backend') == 'maildir' \
+            else [(False, False)]
         if case.get('hidden') and view:
             do({'kind': 'select', 'mailbox': 'INBOX'}, 1)
             for idx in set(case['hidden']):
@@ -464,11 +467,10 @@ def run_search(case: dict, trace: bool = False) -> dict:
                 got = {cur[n - 1]['uid'] for n in nums}
             ok = False
             expected = []
-            # internal dates and sent dates may each be read in the
-            # value's own zone or in UTC (maildir keeps the internal date as
-            # a file time stamp, which has no zone)
-            for utc in ((False, False), (True, True), (True, False),
-                        (False, True)):
+            # RFC 3501: the date "disregarding time and timezone", i.e. as
+            # written.  maildir keeps the internal date as a file time stamp,
+            # which has no zone: there the internal date is read in UTC
+            for utc in readings:
                 need = {cur[j]['uid'] for j in range(len(cur))
                         if cur[j]['uid'] not in hidden_uids
                         and evaluate(tree, cur, j, utc)}
@@ -551,10 +553,11 @@ class C13(Profile):
             'expunges 1-2 messages first (either inclusion accepted for '
             'those). Non-trivial = >= 3 queries on a non-empty mailbox.')
     assumptions = C01.assumptions + [
-        '"disregarding time and timezone" is accepted under two readings, '
-        'the date in the value\'s own zone or in UTC, chosen independently '
-        'for internal dates and for Date headers but fixed for the whole '
-        'program',
+        '"disregarding time and timezone" is read as the calendar date as '
+        'written in the value\'s own zone (RFC 3501 6.4.4), for Date '
+        'headers on both backends and for internal dates on dict; maildir '
+        'stores the internal date as a zone-less file time stamp, there '
+        'the internal date is compared in UTC',
         'string keys are case-insensitive substring tests on the unfolded '
         'header value / body text; needles are alphanumeric words']
     components = C01.components
